@@ -62,6 +62,15 @@ def run(ctx):
             dict(terminal_psi=other_psi, solve_time=4 * dt, adaptive=False, dt=dt, screening=False),
             dict(screening=True, solve_time=3 * dt, adaptive=False, dt=dt, field=0.9, on_copy=True)]))))
         fam.append(ph["label"])
+    # observing a RESULT does not change later simulations either: a first run on the same device (coherence length != 1
+    # length unit, so that every unit factor is non-trivial) is inspected through the documented post-processing
+    # accessors of its Solution, then the observed run follows on the same device object
+    phx = dict(label="bar/xi=0.5/fixed", dev="bar", xi=0.5, current=2.0, field=0.3, adaptive=False, dt=dt, solve_time=8 * dt - dt / 2)
+    physics.append(phx)
+    for rc in (dict(k=1), dict(k=2), dict(k=3, prelude=[dict(solve_time=3 * dt, inspect=True)]),
+               dict(k=2, prelude=[dict(solve_time=2 * dt, inspect=True, screening=True), dict(solve_time=2 * dt, inspect=True, on_copy=True)])):
+        jobs.append(("call", dict(module="harness.twin", func="solve_frames", args=dict(phx, **rc))))
+        fam.append(phx["label"])
     # resume: split the fixed-step run at several points
     base = physics[0]
     splits = [3, 8, N // 2, N - 1, 5] if ctx.quick else list(range(1, N))
@@ -106,6 +115,7 @@ def run(ctx):
                 ev.append({"run": run_id, "key": f"time@step{fr['step']}", "q": [intern(fr["time"])]} if not r["args"].get("split") else
                           {"run": run_id, "key": f"frame@step{fr['step']}", "q": [intern(fr["hash"])]})
             ev.append({"run": run_id, "key": "mesh", "q": [intern(r["mesh"])]})
+            ev.append({"run": run_id, "key": "outcome", "q": [intern(r.get("outcome", "returned"))]})
             ctx.note_case((ph["label"], run_id), len(r["frames"]) >= 2)
         if ph.get("adaptive"):
             dts = {d for r, f in zip(results, fam) if f == ph["label"] for fr in r["frames"] for d in fr.get("dts", [])}
